@@ -55,13 +55,10 @@ func genHeap(c *gal.Ctx) {
 		spec := heapEnd.Cmp(two32) < 0 && t.HeapSize >= 0xE0000 &&
 			t.SinitBase%4096 == 0 && sinitEnd.Cmp(two32) < 0 && t.SinitSize >= 0x10000 &&
 			sb.Cmp(hb) < 0 && (t.SinitBase == 0 || sinitEnd.Cmp(hb) == 0)
-		switch {
-		case exact(got, spec):
+		if exact(got, spec) {
 			c.OracleOK()
-		case got.isPass() && heapEnd.Cmp(two32) >= 0:
-			c.OracleFailKnown(idx, "C05-heap-wrap32", "TXTHeapSpaceValid accepts a heap whose base+size exceeds 4 GiB (the sum is computed in uint32 before the comparison)", siteMem+":TXTHeapSpaceValid", d)
-		default:
-			c.OracleFail(idx, fmt.Sprintf("TXTHeapSpaceValid: exact arithmetic says valid=%v, got %+v", spec, got), siteMem+":TXTHeapSpaceValid", d)
+		} else {
+			c.OracleFail(idx, fmt.Sprintf("TXTHeapSpaceValid: exact arithmetic says valid=%v (heap end %s, SINIT end %s), got %+v", spec, heapEnd.Text(16), sinitEnd.Text(16), got), siteMem+":TXTHeapSpaceValid", d)
 		}
 	}
 	// documented good layout: SINIT directly below the heap
@@ -127,21 +124,20 @@ func genDPR(c *gal.Ctx) {
 		hb, hs, sb, ss := bi(uint64(t.HeapBase)), bi(uint64(t.HeapSize)), bi(uint64(t.SinitBase)), bi(uint64(t.SinitSize))
 		heapEnd := new(big.Int).Add(hb, hs)
 		sinitEnd := new(big.Int).Add(sb, ss)
-		mle := new(big.Int).Sub(limit, big.NewInt(2*MiB))
-		mle.Sub(mle, hs).Sub(mle, ss)
-		spec := size.Cmp(big.NewInt(3*MiB)) >= 0 && base.Cmp(hb) <= 0 &&
+		room := new(big.Int).Add(big.NewInt(2*MiB), hs)
+		room.Add(room, ss)
+		// the DPR is the region [limit - size, limit): at least 3 MiB, its base an address (>= 0); heap and
+		// (if set) SINIT start inside it, the heap ends at its top, SINIT ends inside it, and
+		// 2 MiB + heap + SINIT fit into it
+		spec := size.Cmp(big.NewInt(3*MiB)) >= 0 && base.Sign() >= 0 && base.Cmp(hb) <= 0 &&
 			(t.SinitBase == 0 || base.Cmp(sb) <= 0) &&
 			heapEnd.Cmp(limit) == 0 &&
 			(t.SinitBase == 0 || sinitEnd.Cmp(limit) <= 0) &&
-			base.Cmp(mle) <= 0
-		wrapped := heapEnd.Cmp(two32) >= 0 || sinitEnd.Cmp(two32) >= 0 || limit.Cmp(two32) >= 0 || mle.Sign() < 0 || base.Sign() < 0
-		switch {
-		case exact(got, spec):
+			room.Cmp(size) <= 0
+		if exact(got, spec) {
 			c.OracleOK()
-		case !got.Panic && wrapped:
-			c.OracleFailKnown(idx, "C05-DPR-wrap32", "TXTMemoryIsDPR verdict differs from exact arithmetic when a uint32 sum wraps or limit-2MiB-heap-sinit underflows", siteMem+":TXTMemoryIsDPR", d)
-		default:
-			c.OracleFail(idx, fmt.Sprintf("TXTMemoryIsDPR: exact arithmetic says valid=%v, got %+v", spec, got), siteMem+":TXTMemoryIsDPR", d)
+		} else {
+			c.OracleFail(idx, fmt.Sprintf("TXTMemoryIsDPR: exact arithmetic says valid=%v (DPR [%s,%s), heap end %s, SINIT end %s, 2 MiB + heap + SINIT = %s), got %+v", spec, base.Text(16), limit.Text(16), heapEnd.Text(16), sinitEnd.Text(16), room.Text(16), got), siteMem+":TXTMemoryIsDPR", d)
 		}
 	}
 	dpr := func(topMiB, sizeMiB uint32, lock bool) uint32 {
@@ -176,6 +172,10 @@ func genDPR(c *gal.Ctx) {
 			add("dpr_edge_heap_end", txtRegs{Dpr: dpr(ts[0], ts[1], true), HeapBase: limit - 0xE0000 + d, HeapSize: 0xE0000, SinitBase: 0, SinitSize: 0x10000})
 		}
 	}
+	// DPR size larger than its top address (the base would be negative)
+	add("dpr_size_gt_top", txtRegs{Dpr: dpr(1, 4, true), HeapBase: 0, HeapSize: 0x100000, SinitBase: 0, SinitSize: 0})
+	add("dpr_size_gt_top", txtRegs{Dpr: dpr(3, 4, true), HeapBase: 0x200000, HeapSize: 0x100000, SinitBase: 0, SinitSize: 0x10000})
+	add("dpr_size_eq_top", txtRegs{Dpr: dpr(4, 4, true), HeapBase: 0x300000, HeapSize: 0x100000, SinitBase: 0, SinitSize: 0x10000})
 	add("dpr_edge_size", txtRegs{Dpr: dpr(0x7B4, 2, true), HeapBase: 0x7B320000, HeapSize: 0xE0000, SinitBase: 0, SinitSize: 0})
 	add("dpr_edge_size", txtRegs{Dpr: dpr(0x7B4, 3, true), HeapBase: 0x7B320000, HeapSize: 0xE0000, SinitBase: 0, SinitSize: 0x10000})
 	for i := 0; i < c.Scale(90, 900); i++ {
